@@ -87,14 +87,15 @@ func refItemLen(b []byte) (int, bool) {
 }
 
 // VH_C11_Strings: EncodeByteString / EncodeTextString with lengths from the CBOR length classes
-// {0,1,23,24,255,256,65535,65536} (marker bytes symbolic) and, for text, ALL strings of 0..4 arbitrary bytes:
+// {0,1,23,24,255,256,65535,65536} (marker bytes symbolic; text strings at {23,24,25,255,256,65535,65536} too) and, for text, ALL strings of 0..4 arbitrary bytes:
 // the output is a shortest-form head of the right major type followed by exactly the content; EncodeTextString
 // refuses exactly the strings that are not well-formed UTF-8 (independent Unicode Table 3-7 predicate).
 func VH_C11_Strings() {
 	vh.MustReach("bytes", "text-ok", "text-refused")
 	var w vh.Sink
 	e := NewEncoder(&w)
-	if vh.Choose(2) == 0 {
+	which := vh.Choose(3)
+	if which == 0 {
 		lens := []int{0, 1, 23, 24, 255, 256, 65535, 65536}
 		n := lens[vh.Choose(len(lens))]
 		b := make([]byte, n)
@@ -109,7 +110,20 @@ func VH_C11_Strings() {
 		vh.Reach("bytes")
 		return
 	}
-	s := vh.String("s", vh.Choose(5))
+	var s string
+	if which == 2 {
+		// text strings at the head-size boundaries: ASCII filler, first and last byte symbolic (any byte)
+		lens := []int{23, 24, 25, 255, 256, 65535, 65536}
+		n := lens[vh.Choose(len(lens))]
+		b := make([]byte, n)
+		for i := range b {
+			b[i] = 'x'
+		}
+		b[0], b[n-1] = vh.Byte("tfirst"), vh.Byte("tlast")
+		s = string(b)
+	} else {
+		s = vh.String("s", vh.Choose(5))
+	}
 	err := e.EncodeTextString(s)
 	valid := refUTF8([]byte(s))
 	vh.Assert((err == nil) == valid, "EncodeTextString refuses exactly the invalid UTF-8 strings")
